@@ -103,6 +103,11 @@ def render(hist, files, r):
         elif kind == "DefConst":
             open_("constants", "constants")
             out.append(f"{sep}{ev['n']} = {show(ev['e'], r=r)};")
+        elif kind == "DefKeyblob":
+            close()
+            num = (lambda v: hex(v) if r.random() < 0.7 else str(v))
+            out.append(f"keyblob ({ev['id']}) {{\n    (\n        start = {num(ev['lo'])},\n        end = {num(ev['hi'])},\n"
+                       f"        key = \"{ev['key']}\",\n        counter = \"{ev['ctr']}\"\n    )\n}}\n")
         elif kind == "BeginSection":
             if src and not sources_emitted:
                 open_("sources", "sources")
@@ -198,6 +203,10 @@ def stmt_text(st, files, src, r):
         return "reset;"
     if s == "version_check":
         return f"version_check {'nsec' if st['nsec'] else 'sec'} {show(st['ver'], r=r)};"
+    if s == "encrypt":
+        return f'encrypt ({st["kb"]}) {{\n    load "{files(st["data"])}" > {show(st["addr"], r=r)};\n  }}'
+    if s == "keywrap":
+        return f'keywrap ({st["kb"]}) {{\n    load {{{{{st["kek"]}}}}} > {show(st["addr"], r=r)};\n  }}'
     if s in ("keystore_to_nv", "keystore_from_nv"):
         return f"{s} {mem(st['mem'])}{show(st['addr'], r=r)};"      # numeric memory option only (the documented form of the key-store statements)
     raise Machinery(f"no renderer for {s}")
@@ -318,7 +327,7 @@ def observe_prog(runner, hist, r, tid):
     else:
         # the whole program was refused: attribute the refusal by running every statement on its own (with all definitions)
         per_stmt = []
-        defs = [ev for ev in hist if ev["ev"] in ("DefOption", "DefOptionStr", "DefConst")]
+        defs = [ev for ev in hist if ev["ev"] in ("DefOption", "DefOptionStr", "DefConst", "DefKeyblob")]
         for st in stmts:
             t1, x1 = render(defs + [{"ev": "BeginSection", "id": 0}, st], runner.files, r)
             r1 = runner.run(t1, x1)
@@ -328,6 +337,7 @@ def observe_prog(runner, hist, r, tid):
             else:
                 per_stmt.append(errrec(r1[0]))
     k = 0
+    kbdefs = [e for e in hist if e["ev"] == "DefKeyblob"]
     for ev in hist:
         ev = dict(ev)
         if ev["ev"] in ("Stmt", "Refuse"):
@@ -335,6 +345,8 @@ def observe_prog(runner, hist, r, tid):
                 ev["obs"] = errrec("command-count-mismatch")
             else:
                 ev["obs"] = per_stmt[k]
+                if ev["ev"] == "Stmt" and ev["st"]["s"] in ("encrypt", "keywrap") and ev["obs"]["t"] == "load":
+                    ev["obs"] = owner_of(ev["st"], ev["obs"], kbdefs)
             k += 1
         evs.append(ev)
     refused = any(ev["ev"] == "Refuse" for ev in hist)
@@ -360,6 +372,42 @@ def observe_prog(runner, hist, r, tid):
     else:
         evs.append({"ev": "End", "iopts": [], "sopts": [], "ids": [], "counts": [], "failed": res[0]})
     return {"id": tid, "ev": evs, "text": text, "result": res[0]}
+
+
+def owner_of(st, obs, kbdefs):
+    """encrypt / keywrap: replace the loaded bytes by the id of the key blob they belong to, determined independently of SPSDK (harness/c13_hw.py):
+    keywrap - unwrap the record with the KEK of the statement and compare key, counter and range with every key blob the program defines;
+    encrypt - decrypt the bytes with every defined key blob's OTFAD context at the load address and compare with the (zero-padded) file.
+    -1: the bytes belong to none of them (or to more than one)."""
+    import c13_hw as hw
+
+    data = bytes(obs["d"])
+    owners = []
+    for kb in kbdefs:
+        key, ctr = bytes.fromhex(kb["key"]), bytes.fromhex(kb["ctr"])
+        if st["s"] == "keywrap":
+            if len(data) < 48:
+                continue
+            try:
+                rec = hw.otfad_load_table(data, bytes.fromhex(st["kek"]), 1, rec_size=len(data))[0]
+            except Exception:  # noqa: BLE001
+                continue
+            if rec["ivOk"] and rec["crcOk"] and rec["key"] == key and rec["ctr"] == ctr and rec["srt"] == kb["lo"] and rec["end"] == kb["hi"]:
+                owners.append(kb["id"])
+        else:
+            plain = bytes(st["data"]).ljust((len(st["data"]) + 511) // 512 * 512, b"\0")
+            if len(data) != len(plain):
+                continue
+            ctx = hw.OtfadCtx(key, ctr, kb["lo"], kb["hi"])
+            for swap in (False, True):
+                dec = b"".join(hw.otfad_read([ctx], obs["a"] + o, data[o:o + 16], byte_swap=swap)[3] for o in range(0, len(data), 16))
+                if dec == plain and dec != data:
+                    owners.append(kb["id"])
+                    break
+    out = dict(obs)
+    out["x"] = owners[0] if len(owners) == 1 else -1
+    out["d"] = []
+    return out
 
 
 def key_of(t, matched):
@@ -426,13 +474,22 @@ def run(tier):
     progs2 = g2.json_prints()
     if len(progs) < 300 or len(progs2) < 100:
         raise Machinery(f"program GEN emitted {len(progs)} + {len(progs2)} programs\n{g2.out[-1500:]}")
+    # key blobs: every way of defining up to two of them (ids in and out of definition order) x one or two encrypt / keywrap statements
+    g3 = tlc.run("C19", "BdProgGen", "BdProgGen.cfg", env={"GEN_MAXDEFS": 2, "GEN_MAXSTMTS": 2, "GEN_MAXSECS": 1, "GEN_KBONLY": 1}, workers=1, deadlock=False, heap="8g", timeout=1200)
+    v.add_mc(g3)
+    progs3 = g3.json_prints()
+    if len(progs3) < 200:
+        raise Machinery(f"key-blob GEN emitted only {len(progs3)} programs\n{g3.out[-1500:]}")
+    if tier == "quick":
+        r.shuffle(progs3)
+        progs3 = progs3[:400]
     if tier == "quick":
         r.shuffle(progs)
         progs = progs[:1500]
-    allp = progs + progs2
+    allp = progs + progs2 + progs3
     for h in allp:  # data files are created before forking so that every worker sees the same paths
         for ev in h:
-            if ev["ev"] == "Stmt" and ev["st"]["s"] == "load_file":
+            if ev["ev"] == "Stmt" and ev["st"]["s"] in ("load_file", "encrypt"):
                 runner.files(ev["st"]["data"])
     ptraces = pmap(lambda ih: observe_prog(runner, ih[1], rng(PROP, "prog", ih[0]), 1000000 + ih[0]), list(enumerate(allp)))
     v.count(len(ptraces))
